@@ -269,10 +269,34 @@ def BusSt.updateCache (store : StoreFn φ) (pinnedReader : Bool) (st : StoreSt) 
         else storeReaderFrames store pinnedReader s.maxPersist
                ((targets.filter fun t => t.2.isNone).map (·.1))
       let ls0 : Loop φ := { array := s.cache, loaded := s.loaded, lru := s.lru, count := loadedCount, reader := reader }
+      -- try: <loop> finally: array.flags.writeable = False; self._series = Series(array, …); self._loaded_all = self._loaded.all()
       match loopRun st s.labels s.maxPersist ls0 targets with
-      | .error (e, ls) => .error (e, { s with loaded := ls.loaded, lru := ls.lru })
+      | .error (e, ls) =>
+        .error (e, { s with cache := ls.array, loaded := ls.loaded, lru := ls.lru, loadedAll := ls.loaded.all id })
       | .ok ls =>
         .ok { s with cache := ls.array, loaded := ls.loaded, lru := ls.lru, loadedAll := ls.loaded.all id }
+
+/-- HISTORICAL DEFINITION — behaviour before /repo 1f9773b (no `try / finally` around the load loop): an exception
+    raised inside the loop kept the in-place mutations (`_loaded`, `_last_accessed`) but `_series` and `_loaded_all`
+    were never re-bound, so what had been read was dropped.  Kept only for
+    `SF.C17Gen.pinned_partial_read_counterexample`. -/
+def BusSt.updateCacheNoFinallyPinned (store : StoreFn φ) (pinnedReader : Bool) (st : StoreSt) (s : BusSt φ)
+    (ps : List Nat) (isElement : Bool) : Except (Err × BusSt φ) (BusSt φ) :=
+  let mpActive := s.maxPersist.isSome
+  let load := if s.loadedAll then false else !(ps.all fun p => s.loaded[p]? == some true)
+  if !load && !mpActive then .ok s
+  else match targetsOf s ps with
+  | none => .error (.lookup, s)
+  | some targets =>
+    if !load then .ok { s with lru := (targets.map (·.1)).foldl touch s.lru }
+    else
+      let reader : List φ :=
+        if isElement then targets.map fun t => store (some t.1) t.1
+        else storeReaderFrames store pinnedReader s.maxPersist ((targets.filter fun t => t.2.isNone).map (·.1))
+      let ls0 : Loop φ := { array := s.cache, loaded := s.loaded, lru := s.lru, count := s.loaded.count true, reader := reader }
+      match loopRun st s.labels s.maxPersist ls0 targets with
+      | .error (e, ls) => .error (e, { s with loaded := ls.loaded, lru := ls.lru })
+      | .ok ls => .ok { s with cache := ls.array, loaded := ls.loaded, lru := ls.lru, loadedAll := ls.loaded.all id }
 
 /-- `self._derive(series)` where `series` is the selection `ps` of the current `_series` -/
 def BusSt.selection (s : BusSt φ) (ps : List Nat) : Option (List (Nat × Option φ)) := targetsOf s ps
